@@ -28,6 +28,18 @@ def gen_reqs(rng):
             reqs.append('Z %d %d' % (off, ln))
         else:
             reqs.append('S')
+    if rng.random() < 0.3:
+        # a file size limit (RLIMIT_FSIZE on the real files): writes ending at, crossing and beyond it - a write across
+        # the limit stores the part below it and must be reported as failed by every back end
+        lim = max(4096, (size // 512 + rng.choice([1, 8, 100])) * 512)
+        reqs.append('L %d' % lim)
+        for off, ln in [(lim - 4096, 4096), (lim - 2048, 4096), (lim - 512, 1024), (lim, 512), (lim - 1536, 1 << 16)]:
+            if rng.random() < 0.6:
+                reqs.append('W %d %d %d' % (off, ln, rng.randrange(1, 1 << 30)))
+        reqs.append('R %d %d' % (max(0, lim - 8192), 16384))
+        reqs.append('L 0')
+        reqs.append('W %d 512 7' % (lim + 512))
+        size = max(size, lim + 1024)
     # a full read-back
     reqs.append('R 0 %d' % max(512, min(size + 4096, 8 << 20)))
     return reqs
@@ -148,7 +160,7 @@ def run(tier, seed, replay):
     ass = ['scratch files live on the filesystem of /verif/work; buffered I/O only (direct I/O is not exercised: O_DIRECT support of the scratch filesystem is not assumed)',
            'a back end that cannot start in this sandbox is reported here and skipped: %s' % (dict(unavailable) or 'none skipped')]
     cov = {'evaluations': stats['cases'], 'distinct_nontrivial': qv.distinct_nontrivial(list(texts.values()), needs=('W ', 'Z ')), 'nontrivial_rule': 'distinct scripts with at least one write or punch',
-           'rule': 'raw request sequences on an initially empty file: writes (512 B .. 3 MiB, unaligned lengths too) at 0 / EOF / beyond EOF / random, reads incl. zero-length, across and beyond EOF, punches inside / across / beyond EOF, syncs, final read-back; guest histories (write / read / discard / flush / shrink) on freshly formatted images of 3 cluster sizes x 3 refcount widths; compared: every result, final host file length + hash, final guest sweep hash',
+           'rule': 'raw request sequences on an initially empty file: writes (512 B .. 3 MiB, unaligned lengths too) at 0 / EOF / beyond EOF / random, reads incl. zero-length, across and beyond EOF, punches inside / across / beyond EOF, syncs, writes at / across / beyond a file size limit (RLIMIT_FSIZE), final read-back; guest histories (write / read / discard / flush / shrink) on freshly formatted images of 3 cluster sizes x 3 refcount widths; compared: every result, final host file length + hash, final guest sweep hash',
            'samples': [texts[k] for k in list(texts)[:2]], 'distribution': dict(stats), 'backends_unavailable': dict(unavailable), 'findings_by_backend': dict(seen)}
     return common.finish('C19', tier, seed, 'exploration', gate, cov, t, violations, known, ass,
                          'Differential run of SimFile and the three real back ends on the same request sequences and guest histories.')
